@@ -102,6 +102,17 @@ class CallMixin:
         elif name in ("min", "max") and len(a) == 2 and a[0].ty == a[1].ty == T.Int:
             c = a[0].t <= a[1].t if name == "min" else a[0].t >= a[1].t
             yield st, SV(T.Int, z3.If(c, a[0].t, a[1].t))
+        elif name in ("min", "max") and len(a) == 2 and T.Card in (a[0].ty, a[1].ty) and all(x.ty in (T.Card, T.Int) for x in a):
+            # sheXer cardinalities are int | '+' | '*' | '?': ordering two of them is only defined between ints (str vs int raises TypeError)
+            xs = [self.coerce(x, T.Card) for x in a]
+            for x in xs: self.oblige(st, T.card_is_int(x.t), "order-compare-on-str-cardinality", node)
+            n0, n1 = T.card_n(xs[0].t), T.card_n(xs[1].t)
+            c = n0 <= n1 if name == "min" else n0 >= n1
+            yield st, SV(T.Card, T.card_int(z3.If(c, n0, n1)))
+        elif name in ("min", "max") and len(a) == 2 and all(x.ty in (T.Int, T.Real) for x in a):
+            x0, x1 = self.coerce(a[0], T.Real), self.coerce(a[1], T.Real)
+            c = x0.t <= x1.t if name == "min" else x0.t >= x1.t
+            yield st, SV(T.Real, z3.If(c, x0.t, x1.t))
         elif name == "type":
             yield st, SV(PyFunc, ("typeof", a[0]))
         elif name == "isinstance":
@@ -160,6 +171,20 @@ class CallMixin:
                 self.note_assumption("atoms of sort %s: .startswith(%r) is an uninterpreted predicate fixed on the known constants" % (ty.name(), c))
                 yield st, SV(T.Bool, f(recv.t)); return
             raise VCError("string operation %s on opaque atom %s" % (name, ty.name()))
+        if ty == Display and name in ("append", "add") and len(args) == 1:
+            if name == "add" and len(recv.t) > 0: raise VCError("add on a non-empty display")
+            ety = args[0].ty
+            for e in recv.t:
+                if e.ty != ety: raise VCError("append to a display of mixed element types")
+            if name == "add":
+                recv = self.empty(T.Set(ety))
+            else:
+                lt = T.List(ety); cur = self.empty(lt)
+                for e in recv.t:
+                    n_ = T.list_len(lt, cur.t)
+                    cur = SV(lt, T.list_mk(lt, n_ + 1, z3.Store(T.list_arr(lt, cur.t), n_, e.t)))
+                recv = cur
+            ty = recv.ty
         def writeback(newval):
             if recv.box is not None:
                 self.hwrite(st, recv.box[0], "val", recv.box[1], newval.t); yield st; return
